@@ -15,6 +15,30 @@ CH_NOTE = ("Trusted: CPython, CrossHair 0.0.110's models of int/bool/str primiti
            "replayed under /venv/bin/python without CrossHair before it is reported.")
 
 CLAIMS = {
+    'C18': dict(
+        engine='SCHED',
+        technique='stateless model checking of the real giscanner.cachestore code over a fake POSIX layer: every '
+                  'schedule of the file-system steps (sleep-set partial-order reduction), crash point and device '
+                  'layout is enumerated; clock values are z3 integers and every mtime comparison the code makes is '
+                  'decided by z3 (forking when both outcomes are consistent with the path condition)',
+        category='model_checking',
+        text='The real CacheStore.load/store/_cache_is_valid/_check_cache_version/_clean/_remove_filename run '
+             'unmodified, one operation per coroutine thread, against an in-memory POSIX file system (inodes, atomic '
+             'rename, cross-device copy = truncate + chunked writes + copystat, two-chunk pickles). Explored '
+             'exhaustively per scenario: all interleavings of 2-3 operations from {parse-include (load; on a miss '
+             'parse and store), load, store, version change (purge), source modification}, with and without an '
+             'initial fresh or torn entry, one crash of a writer at any step, same-device and cross-device layouts, '
+             'fine and coarse (equal timestamps) clocks. Oracle: no operation raises; a load returns nothing or a '
+             'complete parse of a version that was current at some moment during the load; no entry from before a '
+             'version change is returned. The fake layer is validated on every run against the real file system on '
+             '141 sequential histories.',
+        design_ref='DESIGN.md sections 2.4 and 4 (C18)',
+        note='Trusted: z3 (linear integer clock constraints), the fake POSIX layer (validated sequentially against the '
+             'real os/shutil/pickle on every run), the independence relation used by the sleep sets (stated in the '
+             'evidence assumptions). NFS/Windows semantics, ENOSPC/EACCES injection, pickle byte formats and more than '
+             '3 concurrent operations (4 with two modifications in the thorough tier) are outside the bounds. Two '
+             'classes of genuine violations are recorded findings and are also reproduced with the real code on the '
+             'real file system in every run.'),
     'C08': dict(
         engine='LLSYM',
         technique='symbolic execution of the LLVM IR clang emits for the real girepository/giroffsets.c (own IR '
